@@ -147,6 +147,7 @@ type machine struct {
 	reopened          bool
 	hdrBuf            []byte
 	cls               map[string]bool
+	aimed             bool
 }
 
 func (m *machine) open(t *rapid.T, ro bool, withDepth bool) {
@@ -508,6 +509,51 @@ func (m *machine) putBatch(t *rapid.T) {
 	}
 }
 
+// aimedBatch writes the aimed triple #0,#1,#2 (see TestC10Model) in this order at the start of one combined file,
+// optionally followed by more members.
+func (m *machine) aimedBatch(t *rapid.T) {
+	if m.ro || !m.aimed || m.cfg.generic {
+		t.Skip("not applicable")
+	}
+	extra := rapid.IntRange(0, 3).Draw(t, "extra")
+	perm := append([]int{0, 1, 2}, rapid.Permutation(seq(universe-3)).Draw(t, "members")[:extra]...)
+	for k := 3; k < len(perm); k++ {
+		perm[k] += 3
+	}
+	// the layout is only the aimed one when none of the three is linked already (EEXIST keeps the old file)
+	for _, i := range perm[:3] {
+		if m.in[i] {
+			if err := m.tree.Delete(m.objs[i].Addr); err != nil {
+				m.fail(t, "Delete(#%d) of a stored object: %v", i, err)
+			}
+			m.in[i] = false
+			m.log("Delete(#%d) (before aimed batch)", i)
+		}
+	}
+	addrs := make([]oid.Address, len(perm))
+	datas := make([][]byte, len(perm))
+	for k, i := range perm {
+		addrs[k], datas[k] = m.objs[i].Addr, m.objs[i].Stored
+	}
+	m.log("PutBatchOrdered(%v) aimed lengths %d,%d,%d", perm, len(m.objs[0].Stored), len(m.objs[1].Stored), len(m.objs[2].Stored))
+	if err := m.tree.VerifPutBatchOrdered(addrs, datas); err != nil {
+		m.fail(t, "PutBatch: %v", err)
+	}
+	for _, i := range perm {
+		m.in[i] = true
+		m.batched[i] = true
+		if m.single[i] {
+			m.bothWays = true
+		}
+		delete(m.siblingOfDeleted, i)
+	}
+	m.cls["aimed-triple-written"] = true
+	m.afterWrite(perm)
+	for _, i := range perm {
+		m.checkAddr(t, i, apiAll)
+	}
+}
+
 func seq(n int) []int {
 	r := make([]int, n)
 	for i := range r {
@@ -640,7 +686,31 @@ func TestC10Model(t *testing.T) {
 			single: map[int]bool{}, batched: map[int]bool{}, siblingOfDeleted: map[int]bool{},
 			hdrBuf: make([]byte, 2*fsobj.HeaderBufferLen), cls: map[string]bool{}}
 		classes := map[string]int{}
+		// (This class found the third defect of this check: readHeader sliced its 40 KiB buffer out of range when the
+		// wanted member's data started beyond buffer offset 20480 after a refill – panic; fixed in /repo f0c9260.)
+		// In a third of the cases objects #0,#1,#2 form a triple aimed at the header-buffer arithmetic of combined
+		// files when written in this order at the start of one file: #0 ends r (1..37) bytes before the end of the
+		// first 20 KiB read (the next prefix is cut by the refill), #1 ends so that the data of #2 starts at buffer
+		// offset off in (20480, 20480+r], and #2 is as long as the remaining room +-1 (or much longer).
+		aimed := rapid.IntRange(0, 2).Draw(t, "aimedTriple") == 0
+		var aim [3]int
+		if aimed {
+			r := rapid.IntRange(1, fsobj.CombinedHdrLen-1).Draw(t, "aimLeftover")
+			off := fsobj.HeaderBufferLen + rapid.IntRange(1, r).Draw(t, "aimOffset")
+			aim[0] = fsobj.HeaderBufferLen - r - fsobj.CombinedHdrLen
+			aim[1] = off - 2*fsobj.CombinedHdrLen
+			room := 2*fsobj.HeaderBufferLen - off
+			aim[2] = rapid.SampledFrom([]int{room - 1, room, room + 1, room + 1, 30000}).Draw(t, "aimLen")
+		}
+		m.aimed = aimed
 		for i := 0; i < universe; i++ {
+			if aimed && i < 3 {
+				o := fit(fsobj.Spec{Idx: i, Seed: seed, Payload: 1}, aim[i])
+				classes["aimed"]++
+				m.objs = append(m.objs, o)
+				m.byAdr[o.Addr] = i
+				continue
+			}
 			o, class := genObject(t, seed, i, cfg)
 			classes[class]++
 			m.objs = append(m.objs, o)
@@ -691,6 +761,7 @@ func TestC10Model(t *testing.T) {
 			"putBatch":       m.putBatch,
 			"putBatch2":      m.putBatch,
 			"concurrentPuts": m.concurrentPuts,
+			"aimedBatch":     m.aimedBatch,
 			"delete":         m.del,
 			"delete2":        m.del,
 			"reopen":         m.reopen,
